@@ -76,6 +76,14 @@ def mc_plan(tier):
                          dict(Kind=kind, Unify=True, Reserved=0, Cap=127, Backend="file", ByteSizes=[0, 16, 40], TypeSet=[(8, 8)],
                               AlignedSet=[], MinSegSet=[8, 24], IncSet=[3], Prefix=PREFIXES[pname], MaxLen=4 + deep,
                               WithReopen=True, Emit=True), "emit_reo", "unify"))
+    # exact fits: typed / aligned / owned handles at a misaligned cursor, neighbours, the arena filled up, releases, then
+    # requests of exactly (and one less than) the size of each free segment
+    for layout, base in [("plain", dict(Unify=False, Reserved=0, Cap=96)), ("unify", dict(Unify=True, Reserved=0, Cap=127))]:
+        for kind in ["opt", "pes"]:
+            plan.append(("fit_%s_%s" % (layout, kind),
+                         dict(base, Kind=kind, ByteSizes=[24], TypeSet=[(8, 8), (16, 16)], AlignedSet=[((8, 8), 16)], OwnedToo=True,
+                              MinSegSet=[], IncSet=[], Prefix=[AB(5)], MaxLen=5 + deep, MaxLive=4, WithFit=True, Emit=True),
+                         "emit_fit", layout))
     # a second arena value alive across truncate (both layouts, Vec and file): made, asked, allocated through, dropped
     for layout, base in [("plain", dict(Unify=False, Reserved=0, Cap=96)), ("unify", dict(Unify=True, Reserved=0, Cap=127))]:
         for backend in ["vec", "file"]:
@@ -423,6 +431,28 @@ def suite_ro_mutators(tier, seed):
     return drivers
 
 
+def suite_fit(mc_results, tier, seed):
+    """Exact-fit reuse: TLC histories in which a handle is released and a later request is sized after a free segment."""
+    rng = random.Random(seed + 29)
+    drivers = []
+    for r in mc_results:
+        if r["mode"] != "emit_fit" or "drivers" not in r:
+            continue
+        cand = [d for d in r["drivers"] if any(o["k"] in ("drop", "dealloc") for o in d[:-1]) and d[-1]["k"] in ("ab", "at", "aa")]
+        fixed = set(r["params"]["ByteSizes"]) | {o["n"] for o in r["prefix"] if o["k"] == "ab"}
+        # every history that ends with a state-dependent request (a segment's size, one less, or all fresh space) after a
+        # release; a seeded sample of the others
+        ds = [d for d in cand if d[-1]["k"] == "ab" and d[-1]["n"] not in fixed]
+        rest = [d for d in cand if not (d[-1]["k"] == "ab" and d[-1]["n"] not in fixed)]
+        ds += rng.sample(rest, min(len(rest), 3000 if tier == "thorough" else 400))
+        backends = LAYOUTS[r["layout"]][2]
+        for i, ops in enumerate(ds):
+            cfg = cfg_for(r["layout"], r["params"]["Kind"], backends[i % len(backends)], cap=r["params"]["Cap"])
+            cfg["maxalign"] = 16
+            drivers.append({"id": "mc:%s:%d" % (r["name"], i), "cfg": cfg, "ops": ops})
+    return drivers
+
+
 def suite_clone(mc_results, tier, seed):
     """A second arena value (Clone) alive across truncate / clear / allocations: every history of the model with the clone
     calls in the menu (made, asked for capacity()/remaining()/allocated(), allocated through, dropped)."""
@@ -439,6 +469,7 @@ def suite_clone(mc_results, tier, seed):
 
 
 SUITES = {
+    "fit": lambda mc, tier, seed: suite_fit(mc, tier, seed),
     "clone": lambda mc, tier, seed: suite_clone(mc, tier, seed),
     "reopen": lambda mc, tier, seed: suite_reopen(tier, seed, mc),
     "ro": lambda mc, tier, seed: suite_ro_mutators(tier, seed),
